@@ -354,7 +354,17 @@ func checkMinMaxDist2(ctx *Ctx, r *Report, fn *ssa.Function, dim int, key string
 			explicitMin[vi] = true
 		}
 	}
-	r.check("O2", key+"|vertex-minimum-fold", fn.Pos(), minFold != nil || len(explicitMin) == len(vertexPolys), "min starts as math.Min over the squared lengths of all translated corners (folded or written out)")
+	// the corner distances kept in a local array filled by the vertex loop: one loop-carried cell per
+	// corner, each written with the squared length of the vertex of the same index
+	cellFolds := map[string]bool{}
+	for _, c := range cands {
+		if isFold(c.t) {
+			if rc := recs[c.t.S]; rc != nil && len(findSub(rc.Step, func(x *Term) bool { return x.Op == "call" && (x.S == "math.Min" || x.S == "math.Max") })) == 0 {
+				cellFolds[c.t.S] = true
+			}
+		}
+	}
+	r.check("O2", key+"|vertex-minimum-fold", fn.Pos(), minFold != nil || len(explicitMin) == len(vertexPolys) || len(cellFolds) == len(vertexPolys), fmt.Sprintf("min starts as math.Min over the squared lengths of all translated corners (folded or written out); %d of %d corners among the %d candidates of the minimum", len(explicitMin), len(vertexPolys), len(cands)))
 	// the box is translated by -p and Vertices() lists all corners
 	vfn := ctx.ssaFunc("sdf", fmt.Sprintf("(Box%d).Vertices", dim))
 	okV := false
